@@ -733,7 +733,7 @@ func hostileTransfer(r *RNG, src string, port int) (string, bool) {
 
 func init() {
 	props["C03"] = func(x *Ctx) {
-		x.rule = "one case = one child-process server + sentinel client + a batch of hostile connections (control: garbage, mutated handshakes, bad logins, logged-in guest/power clients sending 46 transaction types, a client holding the disconnect-users privilege naming user ids nobody holds (with/without ban options, odd id lengths) in disconnect / client-info / instant-message / invite requests, with hostile/plausible field mixes incl. the known panic triggers, cuts mid-transaction, logged-in clients that set their own name / icon / options / automatic reply to odd lengths and linger while the well-behaved client polls the user list every 120 ms; transfer port: garbage preambles, genuine reference numbers followed by corrupt flattened-file objects, short info forks, folder-download resume data of odd lengths, folder-upload item headers with bad sizes), each from its own loopback source address, run concurrently; while, inside the server process, a monitoring reader polls what the admin API serves (Server.CurrentStats as GET /api/v1/stats does, Stats.Get, the user registry) in bursts of 40 reads every 0.4 ms for the whole run; judged: child alive, sentinel answered within 8 s, after the batch a statistics/registry reader returns (20 s) and a NEW well-behaved client can log in and is answered (two attempts, 12 s each), user list and stats equal what the sentinel alone accounts for. rwmutex-model: random schedules of 4..17 actions over four goroutines (RLock via TryRLock, RUnlock, a goroutine entering Lock(), its return, Unlock; at most one writer outstanding) carried out on a real sync.RWMutex and compared step by step with the RWLock model (happens / is turned away). non-trivial = a hostile connection whose handshake the server answered (control) or that presented a genuine reference number (transfer); distinct = distinct byte script"
+		x.rule = "one case = one child-process server + sentinel client + a batch of hostile connections (control: garbage, mutated handshakes, bad logins, logged-in guest/power clients sending 46 transaction types, a client holding the disconnect-users privilege naming user ids nobody holds (with/without ban options, odd id lengths) in disconnect / client-info / instant-message / invite requests, with hostile/plausible field mixes incl. the known panic triggers, cuts mid-transaction, logged-in clients that set their own name / icon / options / automatic reply to odd lengths and linger while the well-behaved client polls the user list every 120 ms; transfer port: garbage preambles, genuine reference numbers followed by corrupt flattened-file objects, short info forks, folder-download resume data of odd lengths, folder-upload item headers with bad sizes), each from its own loopback source address, run concurrently; while, inside the server process, a monitoring reader polls what the admin API serves (Server.CurrentStats as GET /api/v1/stats does, Stats.Get, the user registry) in bursts of 40 reads every 0.4 ms for the whole run; judged: child alive, sentinel answered within 8 s, after the batch a statistics/registry reader returns (20 s) and a NEW well-behaved client can log in and is answered (two attempts, 12 s each), user list and stats equal what the sentinel alone accounts for. rwmutex-model: random schedules of 4..17 actions over four goroutines (RLock via TryRLock, RUnlock, a goroutine entering Lock(), its return, Unlock; at most one writer outstanding) carried out on a real sync.RWMutex and compared step by step with the RWLock model (happens / is turned away). non-trivial = a hostile connection whose handshake the server answered (control) or that presented a genuine reference number (transfer); distinct = distinct byte script. grown-state: one child-process server + a header-trusting well-behaved client; 1..3 hostile clients log in and send only VALID requests below the 64 KiB request limit that grow shared state (1..4 message-board posts of 20000..30000 bytes onto a 39.6 KB board, 3..6 threaded-news articles with 20000..30000-byte titles, 1..2 articles with such bodies, user names of 200..4000 bytes) and leave; then the well-behaved client reads message board, article list, first article, category list, user list in random order, framing the stream by the transaction header's total size as a real client does, each read followed by an ordinary request that must be answered within 10 s (sentinel-starved), a NEW client does the same, registry/counters return to the sentinel alone; the header of every reply is compared with the model (GrownState.replyHeader: total = 2 + sum(4+|data|), 16-bit prefixes = |data| mod 65536); non-trivial = a reply with a field longer than 65535 bytes was received"
 		x.assume = []string{
 			"loopback TCP from 127.x.y.z source addresses stands for remote clients",
 			"memory exhaustion, scheduler fairness, goroutine pile-up behind a never-reading client and data races on non-map fields are not exhibited by this check (partial)",
@@ -942,7 +942,14 @@ func init() {
 			c.Sample(map[string]any{"hostile_control": nCtl, "hostile_transfer": nXfer, "stats_after": st})
 			_ = nUsers
 		}
-		x.Add(&Family{Name: "hostile-batch", Quick: 6, Thor: 120, MaxPar: 6, Run: func(c *Case) { run(c, 220, 60) }})
-		x.Add(&Family{Name: "rwmutex-model", Quick: 400, Thor: 6000, Run: c03RWMutexFamily})
+		add := func(f *Family) { // dev aid: VERIF_ONLY_FAMILY=<name> runs one family
+			if only := os.Getenv("VERIF_ONLY_FAMILY"); only != "" && only != f.Name {
+				return
+			}
+			x.Add(f)
+		}
+		add(&Family{Name: "hostile-batch", Quick: 6, Thor: 120, MaxPar: 6, Run: func(c *Case) { run(c, 220, 60) }})
+		add(&Family{Name: "rwmutex-model", Quick: 400, Thor: 6000, Run: c03RWMutexFamily})
+		add(&Family{Name: "grown-state", Quick: 8, Thor: 60, MaxPar: 4, Run: c03GrownFamily})
 	}
 }
